@@ -147,7 +147,7 @@ func TestLCM(t *testing.T) {
 	var blocks []blk
 	maxSmall := int32(12)
 	if rec.Thorough() {
-		maxSmall = 24
+		maxSmall = 40
 	}
 	for a := int32(1); a <= maxSmall; a++ {
 		for b := int32(1); b <= maxSmall; b++ {
@@ -168,7 +168,7 @@ func TestLCM(t *testing.T) {
 		cand := []int32{1, 2, a, a + 1, b, b + 1, L - 1, L}
 		n := 12
 		if rec.Thorough() {
-			n = 64
+			n = 400
 		}
 		for i := 0; i < n; i++ {
 			cand = append(cand, 1+rng.Int31n(L))
@@ -191,7 +191,7 @@ func TestLCM(t *testing.T) {
 	}
 	nComp := 60
 	if rec.Thorough() {
-		nComp = 400
+		nComp = 6000
 	}
 	for i := 0; i < nComp; i++ {
 		a, b := 1+rng.Int31n(16384), 1+rng.Int31n(16384)
